@@ -265,6 +265,19 @@ func oneRun(o sim.Opts, useModel bool) (rr runResult) {
 		}
 		for i, o := range sout {
 			if o != "ok" {
+				// `becomeLeader` has the guard reqVotesCovered: the log the node leads with covers EVERY vote request of
+				// this candidacy in the soup. It is the protocol-level form of finding 7.8 and deliberately conservative:
+				// the vote messages do not say which request they answer. With asynchronous writes a candidate may crash,
+				// restart with a shorter log, campaign again for the same term and win on grants for its SECOND request
+				// only — harmless, yet not an execution of the protocol. The precise condition (a counted vote was granted
+				// for a log the leader does not hold) is the C02 monitor, over messages really exchanged; it is silent here
+				// (the trace check runs only on runs without monitor violations). If that conjunct is the only one that
+				// fails, the run leaves the protocol's executions at this point: counted, not reported.
+				if strings.Contains(o, "DISABLED becomeLeader") && strings.Contains(o, "[candidate=true quorum=true ownVoteDurable=true reqVotesCovered=false votesInSoup=true]") {
+					rr.Stats["spec_left_at_uncovered_vote_request"]++
+					rr.SpecActs = i
+					break
+				}
 				sf := &specFail{Line: i, Action: c.Spec.Lines[i], Output: o}
 				for k := max(0, i-12); k < i; k++ {
 					sf.Context = append(sf.Context, c.Spec.Lines[k])
@@ -661,7 +674,7 @@ func summarise(res *report.Result, all []runResult, expected int) {
 		if rr.Opts.SpecR && rr.SpecActs > 0 {
 			res.Stats["runs_specr_checked"]++
 		}
-		for _, k := range []string{"specr_cfg_entries", "specr_applyTo", "specr_restarts"} {
+		for _, k := range []string{"specr_cfg_entries", "specr_applyTo", "specr_restarts", "spec_left_at_uncovered_vote_request"} {
 			res.Stats[k] += rr.Stats[k]
 		}
 		if rr.Opts.IDMul > 1 || (len(rr.Opts.Voters) > 0 && rr.Opts.Voters[0] > 1<<32) {
